@@ -27,9 +27,10 @@ NEEDS_EXT = True
 ALL_ACTS = {"open", "hwrite", "hread", "hclose", "create", "overwrite", "append", "appendbad", "appendmissing",
             "read", "readhdr"}
 WRITE_ACTS = ALL_ACTS - {"read", "readhdr"}
+HANDLE_ACTS = {"open", "hwrite", "hread", "hclose", "append", "appendbad", "read"}
 REQUIRE = ["MOpen", "MHWrite", "MHRead", "MHClose", "MCreate", "MOverwrite", "MAppendCompatible",
            "MAppendIncompatible", "MAppendMissing", "MReadBack", "MReadHeader"]
-PROPS = dict(invariants=["SizeInv", "HandleInv", "ReadInv"], properties=["AppendsAccumulate", "FrameProp"])
+PROPS = dict(invariants=["SizeInv", "HandleInv", "ReadInv", "ConcatInv"], properties=["AppendsAccumulate", "FrameProp"])
 
 CHUNKS5 = {"a", "b", "n", "t", "o"}
 CHUNKS8 = CHUNKS5 | {"s", "f", "r"}
@@ -47,18 +48,19 @@ TIERS = {
                         Modes={"w", "r+"}, MaxDepth=3),
         tour=dict(Paths={1}, Handles={1}, ChunkIds=CHUNKS5, Hdrs={"none", "h1"}, Delims={"none", "c"}, Modes=MODES,
                   MaxDepth=4),
-        tour_keep=2500,
-        simulate=dict(num=300, depth=10, consts=dict(Paths={1, 2}, Handles={1, 2}, ChunkIds=CHUNKS8,
-                                                     Hdrs={"none", "h1", "h2"}, Delims={"none", "c", "t", "s"},
-                                                     Modes=MODES)),
+        tour_keep=2000,
+        simulate=dict(num=300, depth=10, keep=2000,
+                      consts=dict(Paths={1, 2}, Handles={1, 2}, ChunkIds=CHUNKS8, Hdrs={"none", "h1", "h2"},
+                                  Delims={"none", "c", "t", "s"}, Modes=MODES)),
         random=400,
+        mechanism=dict(depth=4, tour_depth=3, dev_depth=4),
     ),
     "thorough": dict(
         models=[
             ("1 path, 1 handle, depth 7", dict(Paths={1}, Handles={1}, ChunkIds=CHUNKS5, Hdrs={"none", "h1"},
                                                Delims={"none", "c"}, Modes=MODES, MaxDepth=7)),
-            ("2 paths, 1 handle, 8 chunks, 4 delimiters, depth 4",
-             dict(Paths={1, 2}, Handles={1}, ChunkIds=CHUNKS8, Hdrs={"none", "h1"}, Delims={"none", "c", "t", "s"},
+            ("2 paths, 1 handle, 8 chunks, 3 delimiters, depth 4",
+             dict(Paths={1, 2}, Handles={1}, ChunkIds=CHUNKS8, Hdrs={"none", "h1"}, Delims={"none", "c", "s"},
                   Modes=MODES, MaxDepth=4)),
             ("2 paths, 2 handles, depth 4", dict(Paths={1, 2}, Handles={1, 2}, ChunkIds=CHUNKS5, Hdrs={"none", "h1"},
                                                  Delims={"none", "c"}, Modes=MODES, MaxDepth=4)),
@@ -67,16 +69,17 @@ TIERS = {
                         Modes=MODES, MaxDepth=3),
         tour=dict(Paths={1}, Handles={1}, ChunkIds=CHUNKS5, Hdrs={"none", "h1"}, Delims={"none", "c", "t", "s"},
                   Modes=MODES, MaxDepth=5),
-        tour_keep=60000,
-        simulate=dict(num=5000, depth=12, consts=dict(Paths={1, 2}, Handles={1, 2}, ChunkIds=CHUNKS8,
-                                                      Hdrs={"none", "h1", "h2"}, Delims={"none", "c", "t", "s"},
-                                                      Modes=MODES)),
+        tour_keep=30000,
+        simulate=dict(num=3000, depth=12, keep=30000,
+                      consts=dict(Paths={1, 2}, Handles={1, 2}, ChunkIds=CHUNKS8, Hdrs={"none", "h1", "h2"},
+                                  Delims={"none", "c", "t", "s"}, Modes=MODES)),
         random=8000,
+        mechanism=dict(depth=7, tour_depth=4, dev_depth=5),
     ),
 }
 
 CLAUSE_ORDER = ["unexpected_error", "not_rejected", "read_rows", "read_descr", "read_header", "read_count", "read_delim",
-                "file_state", "rows", "stored_count", "header", "descr", "delim", "handle_count",
+                "file_state", "rows", "stored_count", "header", "descr", "delim",
                 "rejected_bytes_changed", "combination", "spec_invariant", "out_of_scope"]
 
 CLAUSE_TEXT = {
@@ -86,7 +89,6 @@ CLAUSE_TEXT = {
     "rows": "'reading the file returns the concatenation of all written chunks in order'",
     "stored_count": "'the stored row count equals the total number of rows'",
     "read_count": "'the stored row count equals the total number of rows'",
-    "handle_count": "'the stored row count equals the total number of rows' (as reported by the writing handle)",
     "header": "'the user header given at creation is retained unchanged by later appends'",
     "read_header": "'the user header given at creation is retained unchanged by later appends'",
     "file_state": "the file is missing / empty / unreadable where the statement requires a readable file (or vice versa)",
@@ -150,24 +152,73 @@ def parse_failing(failing):
 
 
 def signature(rec, step, clauses, cls):
+    """<entry point>|<first failing clause>|<structural class of the step> (state of the file before the call, storage
+    kind, compatibility of the chunk; the mode only where the handle's mode is what matters)"""
     e = rec["done"][step - 1]
     entry = rc.entry_name(e, rec["v"]["writer"], rec["v"]["reader"] if e["op"] != "hread" else 0)
     op = e["op"]
     if op == "open":
         c = "file=%s" % cls.get("pre")
-    elif op in ("hwrite", "hread", "hclose"):
-        c = "mode=%s,first_write=%s,chunk=%s,%s" % (cls.get("mode"), cls.get("fresh"), cls.get("compat"), cls.get("kind"))
+    elif op == "hwrite":
+        c = "first_write=%s,chunk=%s,%s" % (cls.get("fresh"), cls.get("compat"), cls.get("kind"))
+    elif op == "hread":
+        c = "mode=%s,%s" % (cls.get("mode"), cls.get("kind"))
+    elif op == "hclose":
+        # what the handle wrote becomes observable only now: class of the chunks written through it since it was opened
+        c = "writes=%s,%s" % (handle_writes_class(rec["done"], step), cls.get("kind"))
     else:
         c = "file=%s,chunk=%s,%s" % (cls.get("pre"), cls.get("compat"), cls.get("kind"))
     return "%s|%s|%s" % (entry, clauses[0], c)
 
 
+def handle_writes_class(done, step):
+    """structural class of the chunks accepted through the handle closed at `step` since it was opened (used for the
+    signature only)"""
+    h = done[step - 1]["h"]
+    descrs = []
+    for e in reversed(done[:step - 1]):
+        if e["h"] != h:
+            continue
+        if e["op"] == "open":
+            o = e["obs"][e["p"] - 1]
+            if e["mode"] == "r+" and o["st"] == "ok":      # appending to a file that was there: its fields count too
+                descrs.append(tuple(o["descr"]))
+            break
+        if e["op"] == "hwrite" and e["res"]["err"] == "none":
+            descrs.append(tuple(e["chunk"]["descr"]))
+    if len(set(descrs)) <= 1:
+        return "uniform"
+    return "byteorder_mixed" if len({d[0] for d in descrs}) == 1 else "fields_mixed"
+
+
 def judge(ctx, recs, what, npaths=2, nhandles=2, allow_out_of_scope=False):
     """hand the recorded traces to RecStoreTrace.tla; turn what TLC rejects into violations"""
-    records = [{"id": r["id"], "ev": [rc.tla_event(e) for e in r["done"]]} for r in recs]
-    rejects = tracecheck.validate(ctx, "RecStoreTrace.tla", records, what=what,
-                                  constants={"Paths": set(range(1, npaths + 1)), "Handles": set(range(1, nhandles + 1))})
+    consts = {"Paths": set(range(1, npaths + 1)), "Handles": set(range(1, nhandles + 1))}
+
+    def validate(rs, w):
+        return tracecheck.validate(ctx, "RecStoreTrace.tla",
+                                   [{"id": r["id"], "ev": [rc.tla_event(e) for e in r["done"]]} for r in rs],
+                                   what=w, constants=consts)
+
+    rejects = validate(recs, what)
     byid = {r["id"]: r for r in recs}
+    for r in recs:
+        r["rejected"] = r["id"] in rejects
+    # a trace recorded with sparse observation shows a deviation at a later step than the call that caused it:
+    # record it again with every file read back after every call, so that the failing step (and the signature) is
+    # that of the first deviating call
+    sparse = [byid[i] for i in sorted(rejects) if byid[i]["v"]["sched"] == "sparse"]
+    if sparse:
+        again = quiet_pmap(exec_trace, [(r["id"], r["events"], dict(r["v"], sched="every"), r["npaths"], r["seed"])
+                                        for r in sparse])
+        saved = ctx.traces
+        rej2 = validate(again, what + " (rejected sparse traces, observed after every call)")
+        ctx.traces = saved
+        for r2 in again:
+            if r2["id"] in rej2:
+                r2["rejected"] = True
+                byid[r2["id"]] = r2
+                rejects[r2["id"]] = rej2[r2["id"]]
     nviol = 0
     for rid, failing in sorted(rejects.items()):
         rec = byid[rid]
@@ -194,11 +245,15 @@ def judge(ctx, recs, what, npaths=2, nhandles=2, allow_out_of_scope=False):
     return rejects, nviol
 
 
+def count_trace(ctx, r):
+    ctx.count({"e": r["events"], "v": r["v"]}, nontrivial=any(e["op"] in ("hwrite", "write", "append") for e in r["events"]))
+
+
 def run_and_judge(ctx, behaviours, what, npaths, id0, offset=0):
     jobs = [(id0 + i, ev, variant(i + offset, ctx.seed), npaths, ctx.seed) for i, ev in enumerate(behaviours)]
     recs = quiet_pmap(exec_trace, jobs)
     for r in recs:
-        ctx.count({"e": r["events"], "v": r["v"]})
+        count_trace(ctx, r)
     rejects, nviol = judge(ctx, recs, what)
     ctx.log("%-40s %6d traces, %d rejected" % (what, len(recs), len(rejects)))
     return recs
@@ -281,11 +336,11 @@ def run(ctx):
             ctx.tlc("RecStoreMC.tla", what="RecStore histories: " + what,
                     cfg_text=cfg(constants=mc_constants(consts), constraints=["Bounded"], **PROPS),
                     workers=16, require=REQUIRE, timeout=3000)
-        # the concatenation theorem needs the recorded history
-        small = dict(T["models"][0][1], MaxDepth=4)
-        ctx.tlc("RecStoreMC.tla", what="file = concatenation of accepted writes (history variable, depth 4)",
+        # the running concatenation `cat` of the model is the fold of the recorded history (cross-check, small depth)
+        small = dict(T["models"][0][1], MaxDepth=3, Hdrs={"none"} if ctx.quick else {"none", "h1"})
+        ctx.tlc("RecStoreMC.tla", what="running concatenation = fold of the recorded history (depth 3)",
                 cfg_text=cfg(constants=mc_constants(small, keep=True, export_at=99, acts=WRITE_ACTS),
-                             constraints=["BoundedHist"], invariants=["ConcatInv", "SizeInv"]),
+                             constraints=["BoundedHist"], invariants=["ConcatHistInv", "ConcatInv", "SizeInv"]),
                 workers=16, coverage=False, timeout=3000)
 
     nid = 1
@@ -314,7 +369,7 @@ def run(ctx):
         edges = dedupe(r.records.get("BEH", []))
         # an edge history that is a proper prefix of another one is replayed as part of it
         keep = maximal(edges)
-        nedges = len(edges)
+        nedges, nmax = len(edges), len(keep)
         if len(keep) > T["tour_keep"]:
             rng = random.Random(ctx.seed * 7919 + 11)
             keep = sorted(rng.sample(keep, T["tour_keep"]), key=json.dumps)
@@ -323,36 +378,54 @@ def run(ctx):
         recs = run_and_judge(ctx, keep, "replay: transition tour", 2, nid, offset=1)
         nid += len(recs)
         all_recs += recs
-        ctx.note(tour_edges=nedges, tour_histories_replayed=len(keep))
+        ctx.note(tour_edges=nedges, tour_maximal_histories=nmax, tour_histories_replayed=len(keep))
     # 4. spec -> code: long simulated behaviours of the full model
     if part("simulate"):
         S = T["simulate"]
-        r = ctx.tlc("RecStoreMC.tla", what="simulate %d behaviours of depth %d" % (S["num"], S["depth"]),
-                    cfg_text=cfg(constants=mc_constants(dict(S["consts"], MaxDepth=S["depth"]), keep=True,
-                                                        export_at=S["depth"], max_rows=60),
-                                 constraints=["Export"]),
-                    workers=1, coverage=False, timeout=3000,
-                    simulate="num=%d" % S["num"], extra=["-depth", str(S["depth"] + 1), "-seed", str(ctx.seed + 1)])
-        sims = dedupe(r.records.get("BEH", []))
-        if len(sims) < S["num"] // 2:
-            raise MachineryError("simulation exported only %d behaviours" % len(sims))
+        # TLC's random walk picks uniformly among successor *states*: in the full model the path-level writes (chunk x
+        # header x delimiter) crowd out the handle calls, so half of the walks run a handle-centred sub-model
+        # (files are created and grown through handles and path-level appends only)
+        walks = [("full model", S["consts"], ALL_ACTS),
+                 ("handle-centred", dict(S["consts"], ChunkIds=CHUNKS5, Hdrs={"none", "h1"}, Delims={"none", "c"}), HANDLE_ACTS)]
+        sims, nsims = [], 0
+        for k, (wname, wconsts, wacts) in enumerate(walks):
+            r = ctx.tlc("RecStoreMC.tla", what="simulate %d behaviours of depth %d (%s)" % (S["num"], S["depth"], wname),
+                        cfg_text=cfg(constants=mc_constants(dict(wconsts, MaxDepth=S["depth"]), keep=True,
+                                                            export_at=S["depth"], max_rows=60, acts=wacts),
+                                     constraints=["Export"]),
+                        workers=1, coverage=False, timeout=3000,
+                        simulate="num=%d" % S["num"],
+                        extra=["-depth", str(S["depth"] + 1), "-seed", str(ctx.seed + 1 + k)])
+            got = dedupe(r.records.get("BEH", []))
+            if len(got) < S["num"] // 2:
+                raise MachineryError("simulation (%s) exported only %d behaviours" % (wname, len(got)))
+            # (the export constraint is evaluated on every candidate successor of the last step: TLC prints many
+            # behaviours per simulated one, differing in their last call)
+            nsims += len(got)
+            share = S["keep"] // len(walks)
+            if len(got) > share:
+                rng = random.Random(ctx.seed * 104729 + 5 + k)
+                got = [got[i] for i in sorted(rng.sample(range(len(got)), share))]
+            sims += got
         recs = run_and_judge(ctx, sims, "replay: simulated behaviours", 2, nid, offset=2)
         nid += len(recs)
         all_recs += recs
-        ctx.note(simulated_behaviours=len(sims))
+        ctx.note(simulated_behaviours_exported=nsims, simulated_behaviours_replayed=len(sims))
     # 5. code -> spec: seeded random call sequences, unique row tokens, all bases / orders / delimiters / headers
     if part("random"):
         rng = random.Random(ctx.seed * 1000003 + 17)
         jobs = [(nid + i, random_events(rng), variant(i, ctx.seed), 2, ctx.seed) for i in range(T["random"])]
         recs = quiet_pmap(exec_trace, jobs)
         for r in recs:
-            ctx.count({"e": r["events"], "v": r["v"]})
+            count_trace(ctx, r)
         rejects, _ = judge(ctx, recs, "judge seeded random call sequences (RecStoreTrace)")
         ctx.log("%-40s %6d traces, %d rejected" % ("random call sequences", len(recs), len(rejects)))
         nid += len(recs)
         all_recs += recs
         ctx.note(random_sequences=len(recs))
 
+    if part("mechanism") and only:
+        mechanism(ctx)
     if only:
         return
     # 6. binding self-test: corrupt single observations of accepted traces; exactly those must be rejected
@@ -365,24 +438,34 @@ def run(ctx):
                                     chunk=e["chunk"], hdr=e["hdr"], res=e["res"], obs=e["obs"]) for e in r["done"][:4]],
                     "variant": r["v"]})
     ctx.exhaustive = True
+    x = ctx.extra
     ctx.rule = ("RecStore.tla actions Open/HWrite/HRead/HClose/Create/Overwrite/AppendReopen(compatible, incompatible, "
-                "missing)/ReadBack/ReadHeader; TLC explores every history up to the depths listed in `models`; replayed into "
-                "the real code: every behaviour of length %d over %s, a transition tour of the depth-%d graph (every edge, by "
-                "the breadth-first history of its source; %s), %d simulated behaviours of depth %d of the full model and %d "
-                "seeded random call sequences; each under one of %d dtype families x %d writer x %d reader entry points, with "
-                "every file read back by a fresh reader after every action; a case is distinct by (event list, "
-                "concretisation) and non-trivial always (each contains at least one write)" %
-                (T["behaviours"]["MaxDepth"], _fmt(T["behaviours"]), T["tour"]["MaxDepth"],
-                 "all" if ctx.extra.get("tour_histories_replayed", 0) >= ctx.extra.get("tour_edges", 1) else
-                 "maximal histories, sampled to %d" % T["tour_keep"],
-                 T["simulate"]["num"], T["simulate"]["depth"], T["random"], len(rc.FAMILIES), len(rc.WRITERS), len(rc.READERS)))
+                "missing)/ReadBack/ReadHeader; TLC explores every history up to the depths listed in `models` (invariants "
+                "SizeInv HandleInv ReadInv ConcatInv, action properties AppendsAccumulate FrameProp); replayed into the real "
+                "code: every behaviour of length %d over %s (%d), a transition tour of the depth-%d graph (%d edges, each "
+                "reached by the breadth-first history of its source = %d maximal histories, %d replayed), %d of the %d "
+                "behaviours of depth %d exported by tlc -simulate on the full model, and %d seeded random call sequences of "
+                "6-24 calls; each under one of %d dtype families x %d writer x %d reader entry points, every file read back "
+                "by a fresh reader after every call (3 of 4 traces) or after the last call and after every rejected call; all "
+                "recorded traces judged by RecStoreTrace.tla; a case is distinct by (event list, concretisation), "
+                "non-trivial when it contains a write" %
+                (T["behaviours"]["MaxDepth"], _fmt(T["behaviours"]), x.get("behaviours_exhaustive", 0), T["tour"]["MaxDepth"],
+                 x.get("tour_edges", 0), x.get("tour_maximal_histories", 0), x.get("tour_histories_replayed", 0),
+                 x.get("simulated_behaviours_replayed", 0), x.get("simulated_behaviours_exported", 0), T["simulate"]["depth"],
+                 T["random"], len(rc.FAMILIES), len(rc.WRITERS), len(rc.READERS)))
     ctx.note(models=[{"what": w, "constants": _fmt(c)} for w, c in T["models"]])
     ctx.assumptions = [
         "while a write-mode handle is open on a path the bytes on disk are unconstrained (stdio buffering); only reads through "
         "that handle and every reader after close are judged; two writers on one path at a time are outside the quantifier",
         "an append differing from the file only in byte order: rejected-unchanged or accepted value-correct (DESIGN 7)",
         "a header passed with a non-first write: ignored, or the write rejected; never stored",
-        "opening 'r+' a missing path through a handle: creating or rejected (the path-level append must create)",
+        "opening 'r+' a missing path through a handle: creating or rejected (the path-level append must create); opening "
+        "'w+': creating or rejected, possibly truncating (the statement names no mode that must be openable)",
+        "reading through a handle opened for writing: mode 'w' unconstrained; 'r+'/'w+' may reject, but a table it returns must "
+        "be the concatenation with its header and count",
+        "the byte order a reader hands rows back in is not judged (rows are identified by value; C01 decides bit fidelity); what "
+        "a path holds after a handle was opened on it and nothing written is not judged; the writing handle's own nrows "
+        "attribute is not judged (the stored count is)",
         "text files carry benign values (C04 decides text value fidelity); binary rows are adversarial byte patterns",
         "crash points are not modelled",
     ]
@@ -414,36 +497,61 @@ def maximal(behs):
     return [b for b, k in zip(behs, keys) if "\x00".join(k) not in prefixes]
 
 
+def open_paths(done):
+    """paths a write-mode handle is open on after the recorded events (bookkeeping from the recorded outcomes)"""
+    h2p = {}
+    for e in done:
+        if e["op"] == "open" and e["res"]["err"] == "none":
+            h2p[e["h"]] = e["p"]
+        elif e["op"] == "hclose":
+            h2p.pop(e["h"], None)
+    return set(h2p.values())
+
+
+SELFTEST_MUTS = {
+    "rows": lambda o: o.__setitem__("rows", o["rows"][::-1] if o["rows"] != o["rows"][::-1] else o["rows"][:-1] + [0]),
+    "stored_count": lambda o: o.__setitem__("size", o["size"] - 1),
+    "header": lambda o: o.__setitem__("hdr", "h2" if o["hdr"] != "h2" else "none"),
+    "dropped_row": lambda o: (o.__setitem__("rows", o["rows"][:-1]), o.__setitem__("size", o["size"] - 1)),
+}
+SELFTEST_WANT = {"rows": {"rows"}, "stored_count": {"stored_count"}, "header": {"header"},
+                 "dropped_row": {"rows", "stored_count"}}
+
+
+def maximal_raw(behs):
+    keys = [[json.dumps(e, sort_keys=True) for e in b] for b in behs]
+    prefixes = set()
+    for k in keys:
+        for n in range(1, len(k)):
+            prefixes.add("\x00".join(k[:n]))
+    return [b for b, k in zip(behs, keys) if "\x00".join(k) not in prefixes]
+
+
 def selftest(ctx, all_recs):
-    """corrupt one recorded field of traces TLC accepted: TLC must reject exactly the corrupted copies"""
-    good = [r for r in all_recs if r["done"] and not any(r is x for x in ())]
+    """corrupt one recorded observation of traces TLC accepted - the read-back of a file nobody has open for writing,
+    after the last event: TLC must reject exactly the corrupted copies, at that step, naming the corrupted clause"""
     picks = []
-    for r in good:
+    for r in all_recs:
+        if r.get("rejected") or len(r["done"]) < 2:
+            continue
         last = r["done"][-1]
-        ok_obs = [i for i, o in enumerate(last["obs"]) if o["st"] == "ok" and len(o["rows"]) >= 2]
-        if ok_obs and len(r["done"]) >= 2:
+        busy = open_paths(r["done"])
+        ok_obs = [i for i, o in enumerate(last["obs"]) if o["st"] == "ok" and len(o["rows"]) >= 2 and (i + 1) not in busy]
+        if ok_obs:
             picks.append((r, ok_obs[0]))
         if len(picks) >= 40:
             break
-    if len(picks) < 4:
+    if len(picks) < 8:
         raise MachineryError("self-test: too few accepted traces with a readable multi-row file")
     recs, expect = [], {}
-    k = 0
-    for r, q in picks:
+    for k, (r, q) in enumerate(picks, 1):
         base = {"id": 0, "ev": [rc.tla_event(e) for e in r["done"]]}
-        muts = {
-            "rows": lambda o: o.__setitem__("rows", o["rows"][::-1] if o["rows"] != o["rows"][::-1] else o["rows"][:-1]),
-            "stored_count": lambda o: o.__setitem__("size", o["size"] - 1),
-            "header": lambda o: o.__setitem__("hdr", "h2" if o["hdr"] != "h2" else "none"),
-            "dropped_row": lambda o: (o.__setitem__("rows", o["rows"][:-1]), o.__setitem__("size", o["size"] - 1)),
-        }
-        name = list(muts)[k % len(muts)]
+        name = list(SELFTEST_MUTS)[k % len(SELFTEST_MUTS)]
         c = json.loads(json.dumps(base))
-        muts[name](c["ev"][-1]["obs"][q])
-        k += 1
+        SELFTEST_MUTS[name](c["ev"][-1]["obs"][q])
         c["id"] = 2 * k
         recs.append(c)
-        expect[2 * k] = name
+        expect[2 * k] = (name, len(r["done"]))
         u = json.loads(json.dumps(base))
         u["id"] = 2 * k + 1
         recs.append(u)
@@ -451,29 +559,101 @@ def selftest(ctx, all_recs):
     rej = tracecheck.validate(ctx, "RecStoreTrace.tla", recs, what="self-test: corrupted observations rejected",
                               constants={"Paths": {1, 2}, "Handles": {1, 2}})
     ctx.traces = saved_traces
-    # the uncorrupted copies may themselves be rejected (known defects of the tree): the corrupted ones must be
-    # rejected, and at the corrupted step with the corrupted clause unless the original already failed earlier
-    missed = [i for i in expect if i not in rej]
-    if missed:
-        raise MachineryError("binding self-test failed: corrupted traces accepted: %s" % [expect[i] for i in missed])
-    named = 0
-    for i, name in expect.items():
+    for i, (name, nsteps) in sorted(expect.items()):
         if i + 1 in rej:
-            continue
+            raise MachineryError("binding self-test: an accepted trace was rejected when validated again: %s" % rej[i + 1])
+        if i not in rej:
+            raise MachineryError("binding self-test failed: corrupted observation (%s) accepted" % name)
         step, clauses, _ = parse_failing(rej[i])
-        want = {"rows": {"rows"}, "stored_count": {"stored_count"}, "header": {"header"},
-                "dropped_row": {"rows", "stored_count"}}[name]
-        if not (want & set(clauses)):
-            raise MachineryError("binding self-test: corruption %s reported as %s" % (name, clauses))
-        named += 1
-    if named < 3:
-        raise MachineryError("binding self-test: fewer than 3 corrupted traces had an accepted original")
-    ctx.note(selftest_corruptions=len(expect), selftest_named=named)
+        if step != nsteps or not (SELFTEST_WANT[name] & set(clauses)):
+            raise MachineryError("binding self-test: corruption %s at step %d reported as %s at step %d" %
+                                 (name, nsteps, clauses, step))
+    ctx.note(selftest_corruptions=len(expect))
+
+
+MECH_REQUIRE = ["MOpen", "MWrite", "MRead", "MClose", "MPathWrite", "MPathAppend"]
+MECH_INVS = ["SizeLineInv", "CacheInv", "CppCountInv", "RowsInv", "RewriteInv"]
+# deviating variant -> (mechanism invariant it must violate or None, clauses RecStoreTrace must name on its behaviours)
+MECH_DEVIATIONS = {
+    "FixedCompat": ("RowsInv", {"not_rejected", "rows"}),
+    "FixedCount": ("CppCountInv", {"read_rows"}),
+    "FixedMissing": (None, {"unexpected_error"}),
+}
 
 
 def mechanism(ctx):
-    """SFileFormat: the byte-level protocol refines the property-level file (a violated mechanism invariant is a lead)"""
-    pass
+    """RecStoreMech.tla: the implementation-shaped model of the append mechanism (SIZE line rewritten in place, the
+    three cached row counts, the compatibility check).  Its own invariants are model-checked; refinement of the
+    property-level RecStore is checked by trace inclusion - a transition tour of the mechanism's behaviours is judged
+    by RecStoreTrace.tla like traces of the real code.  The repaired variant must pass both; each known deviation of
+    the code (a constant) must be *seen* by both.  A lead generator, never a verdict about esutil."""
+    M = TIERS[ctx.tier]["mechanism"]
+    base = dict(ChunkIds={"a", "b", "n", "o"}, Hdrs={"none", "h1"}, Delims={"none", "c"}, Modes=MODES, PathOps=True,
+                FixedCompat=True, FixedCount=True, FixedMissing=True)
+
+    # the deviations need four calls to show (create; open r+; write; read through the handle): smaller alphabet, deeper
+    small = dict(ChunkIds={"a", "n", "o"}, Hdrs={"none"}, Modes={"w", "r+"})
+
+    def consts(depth, keep, export_at, **dev):
+        return dict(base, MaxDepth=depth, KeepHist=keep, ExportAt=export_at, **dev)
+
+    ctx.tlc("RecStoreMech.tla", what="mechanism invariants (repaired variant, depth %d)" % M["depth"],
+            cfg_text=cfg(constants=consts(M["depth"], False, 99), invariants=MECH_INVS, properties=["AppendOnly"],
+                         constraints=["Bounded"]),
+            workers=16, require=MECH_REQUIRE, timeout=3000)
+    for dev, (inv, _) in sorted(MECH_DEVIATIONS.items()):
+        if inv is None:
+            continue
+        r = ctx.tlc("RecStoreMech.tla", what="mechanism self-test: %s=FALSE violates %s" % (dev, inv),
+                    cfg_text=cfg(constants=consts(M["depth"], False, 99, **{dev: False}), invariants=[inv],
+                                 constraints=["Bounded"]),
+                    workers=1, allow_violation=True, coverage=False, timeout=3000)   # (stops at the violation: one worker, so
+        #                                                                   that the state count does not depend on the schedule)
+        if inv not in r.violated:
+            raise MachineryError("mechanism self-test: %s=FALSE does not violate %s" % (dev, inv))
+
+    def tour(what, depth, **dev):
+        r = ctx.tlc("RecStoreMech.tla", what="mechanism tour: " + what,
+                    cfg_text=cfg(constants=consts(depth, True, 0, **dev), constraints=["Export"], view="MView"),
+                    workers=1, coverage=False, timeout=3000)
+        seen, behs = set(), []
+        for b in r.records.get("BEH", []):
+            k = json.dumps(b, sort_keys=True)
+            if k not in seen:
+                seen.add(k)
+                behs.append(b)
+        if not behs:
+            raise MachineryError("mechanism tour exported nothing")
+        nedges = len(behs)
+        behs = maximal_raw(behs)      # an edge history that is a proper prefix of another one is judged as part of it
+        saved = ctx.traces
+        rej = tracecheck.validate(ctx, "RecStoreTrace.tla", [{"id": i + 1, "ev": b} for i, b in enumerate(behs)],
+                                  what="mechanism behaviours judged by RecStoreTrace: " + what,
+                                  constants={"Paths": {1}, "Handles": {1}})
+        ctx.traces = saved           # behaviours of a model, not of the implementation
+        clauses = {}
+        for rid, failing in rej.items():
+            _, cl, _ = parse_failing(failing)
+            if "spec_invariant" in cl or "out_of_scope" in cl:
+                raise MachineryError("mechanism behaviour outside RecStoreTrace's scope: %s" % failing)
+            for c in cl:
+                clauses[c] = clauses.get(c, 0) + 1
+        ctx.log("mechanism tour %-40s %d edges, %d maximal behaviours, %d rejected %s" % (what, nedges, len(behs), len(rej),
+                                                                                         clauses or ""))
+        return len(behs), len(rej), clauses
+
+    n, nrej, clauses = tour("repaired variant refines RecStore", M["tour_depth"])
+    if nrej:
+        raise MachineryError("the repaired mechanism model does not refine RecStore: %d of %d behaviours rejected %s" %
+                             (nrej, n, clauses))
+    summary = {"repaired": {"behaviours": n, "rejected": 0}}
+    for dev, (_, want) in sorted(MECH_DEVIATIONS.items()):
+        n, nrej, clauses = tour("%s=FALSE is rejected" % dev, M["dev_depth"], **dict(small, **{dev: False}))
+        if not nrej or not (want & set(clauses)):
+            raise MachineryError("mechanism self-test: deviation %s=FALSE not rejected as expected (%d rejected, %s)" %
+                                 (dev, nrej, clauses))
+        summary[dev + "=FALSE"] = {"behaviours": n, "rejected": nrej, "clauses": clauses}
+    ctx.note(mechanism=summary)
 
 
 def replay(ctx, case):
